@@ -8,17 +8,24 @@ use serde_json::json;
 
 /// name every second group (only for patterns without references: numbered references and
 /// named groups must not be mixed)
-fn name_some(n: &Node, counter: &mut usize) -> Node {
+fn name_some(n: &Node, counter: &mut usize, layout: usize, total: usize) -> Node {
     match n {
         Node::Group(_, c) => {
             *counter += 1;
             let me = *counter;
-            let inner = name_some(c, counter);
-            Node::Group(if me % 2 == 1 { Some(format!("n{}", me)) } else { None }, Box::new(inner))
+            let inner = name_some(c, counter, layout, total);
+            // layouts: 0 = every second group, 1 = only the last group (any number of unnamed
+            // groups before it), 2 = every third group starting with the third
+            let named = match layout {
+                0 => me % 2 == 1,
+                1 => me == total,
+                _ => me % 3 == 0,
+            };
+            Node::Group(if named { Some(format!("n{}", me)) } else { None }, Box::new(inner))
         }
         other => {
             let mut out = other.clone();
-            let kids: Vec<Node> = other.children().iter().map(|c| name_some(c, counter)).collect();
+            let kids: Vec<Node> = other.children().iter().map(|c| name_some(c, counter, layout, total)).collect();
             for (i, k) in kids.into_iter().enumerate() {
                 out = gen::replace_child(&out, i, k);
             }
@@ -110,14 +117,30 @@ pub fn run(ctx: &Ctx) -> Outcome {
     let angle = Style { group: GroupStyle::Angle, backref: RefStyle::KAngle, ..Style::default() };
     let pname = Style { group: GroupStyle::PName, backref: RefStyle::PEq, ..Style::default() };
     let plain = Style::default();
-    let acc = par_run(&sp.patterns, false, Some(3_000_000), |i, p, acc| {
+    let mut patterns = sp.patterns.clone();
+    // rows of 2-6 sibling groups and nestings, so that names sit behind several unnamed groups
+    for k in 2..=6usize {
+        patterns.push(Node::Concat((0..k).map(|j| Node::group(if j % 2 == 0 { Node::lit("a") } else { Node::Empty })).collect()));
+        patterns.push(Node::Concat((0..k).map(|_| Node::Repeat(Box::new(Node::group(Node::lit("a"))), 0, Some(1), crate::ast::Mode::Greedy)).collect()));
+        let mut nest = Node::lit("a");
+        for _ in 0..k {
+            nest = Node::group(nest);
+        }
+        patterns.push(Node::Concat(vec![nest, Node::group(Node::Any(false))]));
+    }
+    let acc = par_run(&patterns, false, Some(3_000_000), |i, p, acc| {
         if !p.refs_exist() || p.n_groups() == 0 {
             return;
         }
         // spellings: plain, all groups named, every second group named (reference-free patterns)
         let mut variants: Vec<(Node, &Style)> = vec![(p.clone(), &plain), (p.clone(), if i % 2 == 0 { &angle } else { &pname })];
         if !p.has_refs() {
-            variants.push((name_some(p, &mut 0), &plain));
+            for layout in 0..3 {
+                let v = name_some(p, &mut 0, layout, p.n_groups());
+                if v.any(&|n| matches!(n, Node::Group(Some(_), _))) {
+                    variants.push((v, &plain));
+                }
+            }
         }
         // and the VM twin of each: an empty look-ahead appended
         let twins: Vec<(Node, &Style)> = variants.iter().map(|(n, st)| (Node::Concat(vec![n.clone(), Node::Look(Box::new(Node::Empty), false, false)]), *st)).collect();
@@ -174,7 +197,7 @@ pub fn run(ctx: &Ctx) -> Outcome {
     });
     let mut out = Outcome::new(acc);
     out.distinct_nontrivial = out.acc.distinct;
-    out.rule = format!("{}; every pattern with >= 1 group in three spellings (unnamed; all groups named with (?<gN>..) or (?P<gN>..) and named references; every second group named when the pattern has no references) and for each the VM twin with an empty look-ahead appended; x {} texts. The generator knows the truth (group count, name of every index). Checked: captures_len, capture_names (length, each name at its index, index 0 unnamed), and on every successful search Captures::len = captures_len, iter() yields len() items equal to get(i), name(n) = get(index of n), get(0) is Some, get(len..len+3) is None, an unknown name gives None. Non-trivial: distinct patterns with >= 2 groups of which >= 1 named that matched on both routes.", sp.describe, texts.len());
+    out.rule = format!("{}; every pattern with >= 1 group in three spellings (unnamed; all groups named with (?<gN>..) or (?P<gN>..) and named references; for reference-free patterns three partial naming layouts: every second group, only the last group, every third group) and for each the VM twin with an empty look-ahead appended; x {} texts. The generator knows the truth (group count, name of every index). Checked: captures_len, capture_names (length, each name at its index, index 0 unnamed), and on every successful search Captures::len = captures_len, iter() yields len() items equal to get(i), name(n) = get(index of n), get(0) is Some, get(len..len+3) is None, an unknown name gives None. Non-trivial: distinct patterns with >= 2 groups of which >= 1 named that matched on both routes.", sp.describe, texts.len());
     let (w, v) = (out.acc.get("patterns-matched:wrapped"), out.acc.get("patterns-matched:vm"));
     out.extra = json!({"patterns_matched": {"wrapped": w, "vm": v}});
     out.require(w > 0 && v > 0, "both routes must be exercised");
